@@ -407,6 +407,13 @@ def canonicalize(asts, ref=None):
         good = {new: old for new, old in good.items() if len(inv[old]) == 1}
         if good:
             accepted[scope] = good
+    # ---- second stage: functions whose shape changed as well (a rename inside a restructured function cannot be
+    # aligned token by token).  Any bijective replacement of a FRESH name by a GONE name, applied to every occurrence
+    # in its scope, is an alpha-renaming whatever the pairing - so pairing by evidence is safe: a wrong guess is
+    # merely unhelpful.  Evidence: for private attributes, the set of methods that use them; for parameters, their
+    # position; for locals, the shape of the expression first bound to them.
+    _heuristic_pairs(asts, ref, cur_units, cur_sigs, accepted, prot, prefixes, ref_cls, cur_cls, cur_attr, ref_attr,
+                     ref_nonself_attr, cur_nonself_attr)
     # a member rename also applies to accesses through other objects when the new name belongs to that class alone
     attr_map = dict(accepted.get(("attr",), {}))
     for scope, m in list(accepted.items()):
@@ -478,6 +485,134 @@ def canonicalize(asts, ref=None):
     for new, old in sorted(attr_map.items()):
         renames.append({"scope": "attribute-access", "current": new, "reference": old})
     return renames
+
+
+def _first_binding_shapes(fn):
+    """local name -> shape of the first expression bound to it (identifiers blanked), for assignments and loop targets"""
+    out = {}
+    order = []
+
+    def shape_of(e):
+        toks, shape = [], []
+        _scan(e, toks, shape)
+        return "\x00".join(shape)
+    for n in ast.walk(fn):
+        if isinstance(n, ast.Assign) and len(n.targets) == 1 and isinstance(n.targets[0], ast.Name):
+            if n.targets[0].id not in out:
+                out[n.targets[0].id] = ("=", shape_of(n.value))
+                order.append(n.targets[0].id)
+        elif isinstance(n, (ast.For, ast.comprehension)) and isinstance(n.target, ast.Name):
+            if n.target.id not in out:
+                out[n.target.id] = ("for", shape_of(n.iter))
+                order.append(n.target.id)
+        elif isinstance(n, ast.ExceptHandler) and n.name and n.name not in out:
+            out[n.name] = ("except", shape_of(n.type) if n.type is not None else "")
+            order.append(n.name)
+        elif isinstance(n, ast.withitem) and isinstance(n.optional_vars, ast.Name) and n.optional_vars.id not in out:
+            out[n.optional_vars.id] = ("with", shape_of(n.context_expr))
+            order.append(n.optional_vars.id)
+    return out, order
+
+
+def _heuristic_pairs(asts, ref, cur_units, cur_sigs, accepted, prot, prefixes, ref_cls, cur_cls, cur_attr, ref_attr,
+                     ref_nonself_attr, cur_nonself_attr):
+    def names_in(tokens, kinds):
+        return {str(n) for k, n in tokens if k in kinds}
+    for rel, runits in ref.items():
+        if rel not in cur_sigs:
+            continue
+        cs = cur_sigs[rel]
+        rkeys = {tuple(k.split("|")): v for k, v in runits.items()}
+        classes = {k[1] for k in rkeys if k[0] == "cls" and k in cs}
+        for C in sorted(classes):
+            cmap = accepted.get(("cls", rel, C), {})
+            inv = {old: new for new, old in cmap.items()}
+            # methods of the class on both sides, under the reference names
+            ref_meths = {k[2]: rkeys[k][1] for k in rkeys if k[0] == "meth" and k[1] == C}
+            cur_meths = {cmap.get(k[2], k[2]): cs[k].tokens for k in cs if k[0] == "meth" and k[1] == C}
+            ref_use, cur_use = defaultdict(set), defaultdict(set)
+            for mname, toks in ref_meths.items():
+                for a in names_in(toks, ("sattr",)):
+                    if a not in ref_meths:
+                        ref_use[a].add(mname)
+            for mname, toks in cur_meths.items():
+                for a in names_in(toks, ("sattr",)):
+                    a0 = cmap.get(a, a)
+                    if a0 not in cur_meths:
+                        cur_use[a0].add(mname)
+            missing = [a for a in ref_use if a not in cur_use and a not in inv]
+            fresh = [b for b in cur_use if b not in ref_use and b not in cmap]
+            pairs = {}
+            for a in missing:
+                scored = []
+                for b in fresh:
+                    inter = len(ref_use[a] & cur_use[b])
+                    union = len(ref_use[a] | cur_use[b])
+                    if union and inter / union >= 0.6:
+                        scored.append((inter / union, b))
+                scored.sort(reverse=True)
+                if scored and (len(scored) == 1 or scored[0][0] > scored[1][0]):
+                    pairs[a] = scored[0][1]
+            # one fresh name for one missing name
+            back = defaultdict(list)
+            for a, b in pairs.items():
+                back[b].append(a)
+            for a, b in pairs.items():
+                if len(back[b]) != 1:
+                    continue
+                if _is_protected(a, prot, prefixes) or _is_protected(b, prot, prefixes):
+                    continue
+                if a in cur_attr or b in ref_attr:
+                    continue                                   # old must be gone everywhere, new fresh everywhere
+                if not a.startswith("_") and (a in ref_nonself_attr or b in cur_nonself_attr):
+                    continue
+                accepted.setdefault(("cls", rel, C), {})[b] = a
+        # parameters by position, locals by the shape of what is first bound to them
+        for k in sorted(rkeys):
+            if k[0] not in ("meth", "fn"):
+                continue
+            ck = k
+            if k not in cs:
+                # the method itself may have been renamed (accepted above)
+                if k[0] == "meth":
+                    m = accepted.get(("cls", rel, k[1]), {})
+                    newname = next((new for new, old in m.items() if old == k[2]), None)
+                    ck = (k[0], k[1], newname) if newname else None
+                else:
+                    m = accepted.get(("mod", rel), {})
+                    newname = next((new for new, old in m.items() if old == k[1]), None)
+                    ck = (k[0], newname) if newname else None
+                if ck is None or ck not in cs:
+                    continue
+            if cs[ck].shape == rkeys[k][0]:
+                continue                                       # aligned exactly in the first stage
+            rfn = reference_function(rel, k)
+            cfn = cur_units[rel].get(ck)
+            if rfn is None or cfn is None:
+                continue
+            lm = accepted.setdefault(("loc", rel) + ck, {})
+            rnames = {n.id for n in ast.walk(rfn) if isinstance(n, ast.Name)} | {a.arg for a in ast.walk(rfn) if isinstance(a, ast.arg)}
+            cnames = {n.id for n in ast.walk(cfn) if isinstance(n, ast.Name)} | {a.arg for a in ast.walk(cfn) if isinstance(a, ast.arg)}
+
+            def ok_pair(old, new):
+                return old != new and old not in cnames and new not in rnames and new not in lm and old not in lm.values()
+            rp = [a.arg for a in rfn.args.args]
+            cp = [a.arg for a in cfn.args.args]
+            if len(rp) == len(cp) and not (rfn.args.vararg or cfn.args.vararg or rfn.args.kwonlyargs or cfn.args.kwonlyargs):
+                for old, new in zip(rp, cp):
+                    if ok_pair(old, new):
+                        lm[new] = old
+            rb, rorder = _first_binding_shapes(rfn)
+            cb, corder = _first_binding_shapes(cfn)
+            r_missing = [n for n in rorder if n not in cnames and n not in lm.values()]
+            c_fresh = [n for n in corder if n not in rnames and n not in lm]
+            for old in r_missing:
+                cands = [new for new in c_fresh if cb[new] == rb[old] and new not in lm]
+                twins = [o for o in r_missing if rb[o] == rb[old]]
+                if len(cands) == 1 and len(twins) == 1 and ok_pair(old, cands[0]):
+                    lm[cands[0]] = old
+            if not lm:
+                accepted.pop(("loc", rel) + ck, None)
 
 
 def _shadowed(name_node, mm):
